@@ -72,6 +72,9 @@ ASSUMPTIONS = [
     "__sync built-ins, std::atomic<bool> jobFinished)",
     "schedule()/AsyncTask are used from the thread that initialised the tasking system or from inside a task (enkiTS: "
     "AddTaskSetToPipe 'should only be called from main thread, or within a task'); one controlling thread per AsyncTask",
+    "initTaskingSystem() is not called while a task that itself calls schedule()/async() may be running (the global scheduler "
+    "handle is replaced without synchronisation: on the Internal backend such a task then divides by zero in SplitAndAddTask "
+    "or uses the dying scheduler) - re-initialisation with plain queued closures pending IS exercised",
     "the shape extractor (clang-14 AST -> member order, lambda statements, destructor/get()/wait() shape, task life cycle) "
     "is faithful; constructs it does not understand fail closed",
     "the enkiTS pipe (LockLessMultiReadPipe) hands every written partition to exactly one reader (C01's pipe_handoff); "
@@ -619,9 +622,18 @@ def gen_cases(rng, tier, h):
                 if m > 0 and budget >= 0:
                     c.append(line)
                     pending = True
+                    if rng.chance(0.25) and line.split()[3] == "0" and not any(l.startswith("sched") and l.split()[3] != "0" for l in c[:-1]):
+                        # re-initialise the tasking system while scheduled tasks may still be queued: they still run once.
+                        # (Only after bursts whose closures do not schedule again themselves: a task calling schedule()
+                        # concurrently with initTaskingSystem() races on the global scheduler handle - outside the usage
+                        # discipline the property assumes, see ASSUMPTIONS.)
+                        c.append("init %d" % rng.pick([1, 2, 3, 4, HW]))
                     if rng.chance(0.6):
                         c.append("wait_all")
                         pending = False
+            elif r < 0.40 and not tsan and any(l.startswith("init ") and int(l.split()[1]) >= 3 for l in c[-1:] + c[:1]) \
+                    and [l for l in c if l.startswith("init ")][-1].split()[1] not in ("1", "2") and not pending:
+                c.append("dep %d" % rng.pick([1, 3, 8]))
             elif r < 0.50:
                 c.append("async %s %d" % (rng.pick(KINDS_A), rng.randrange(1, 500)))
             else:
